@@ -3,7 +3,13 @@ import Uft.Gen.PatchTables
 C14 — model of the x86_64 dynamic patcher without capstone:
   arch/x86_64/mcount-dynamic.c  patch_fentry_code (:261), get_target_addr (:256),
                                 mcount_patch_func (:591, the size rule),
-                                unpatch_func (:530), mcount_unpatch_func (:625),
+                                unpatch_func (:534), unpatch_fentry_func (:560),
+                                unpatch_mcount_func (:578), mcount_unpatch_func (:629)
+                                (`Cfg.fixed`, `Cfg.skipEndbr`: false = the code as it is —
+                                unpatch_func overwrites any `e8` / `ff 15`, finding
+                                C14-UNPATCH-ANY-CALL; unpatch_fentry_func does not skip
+                                endbr64, finding C14-UNPATCH-ENDBR — true = the proposed
+                                repairs, proposed_fixes/C14-UNPATCH-*.diff),
                                 mcount_setup_trampoline (:26),
                                 mcount_cleanup_trampoline (:94),
                                 the signature scan of mcount_arch_find_module (:208)
@@ -152,8 +158,12 @@ structure Cfg where
   tramp : Nat
   locs : List Nat      -- mdi->patch_target as relative addresses
   /-- false = unpatch_func as it is (any `e8` / `ff 15` is overwritten: finding
-      C14-unpatch-any-call); true = the proposed repair (the call must enter the tracer) -/
+      C14-UNPATCH-ANY-CALL); true = the proposed repair (the call must enter the tracer) -/
   fixed : Bool := true
+  /-- false = unpatch_fentry_func as it is (it looks at the first byte of the symbol, so a
+      function that starts with endbr64 is never unpatched: finding C14-UNPATCH-ENDBR);
+      true = the proposed repair (skip an endbr64 exactly like patch_fentry_code) -/
+  skipEndbr : Bool := true
   mapLen : Nat := 0          -- map->end - map->start
   textLo : Nat := 0          -- mdi->text_addr - map->start
   textHi : Nat := 0          -- mdi->text_addr + mdi->text_size - map->start
@@ -178,7 +188,7 @@ def findSym (syms : List Sym) (a : Nat) : Option Sym :=
   syms.find? fun s => s.addr ≤ a && a < s.addr + s.size
 
 /-! ### unpatch with the call-target test (`fixed = true`: proposed repair of
-    finding C14-unpatch-any-call; `fixed = false`: the code as it is) -/
+    finding C14-UNPATCH-ANY-CALL; `fixed = false`: the code as it is) -/
 
 /-- little-endian loads from the image (`memcpy(&x, p, sizeof(x))`) -/
 def rd32 (c : Code) (o : Nat) : Nat :=
@@ -231,11 +241,16 @@ def unpatchAtG (cfg : Cfg) (c : Code) (o : Nat) : Code × Res :=
     else (writeAt c o unpatch_nop6, .success)
   else (c, .skipped)
 
-/-- mcount_unpatch_func (see `unpatchFunc`) with the call-target test -/
+/-- where unpatch_fentry_func looks: the first byte of the symbol in the code as it
+    is, after an optional endbr64 in the repaired code -/
+def unpatchSite (cfg : Cfg) (c : Code) (a : Nat) : Nat :=
+  if cfg.skipEndbr then prologueOff c a else a
+
+/-- mcount_unpatch_func (see `unpatchFunc`) with the call-target test and the endbr64 skip -/
 def unpatchFuncG (cfg : Cfg) (c : Code) (a : Nat) (loc : Option Nat) : Code × Res :=
   match cfg.ty with
-  | .fentry => unpatchAtG cfg c a
-  | .patchable => unpatchAtG cfg c a
+  | .fentry => unpatchAtG cfg c (unpatchSite cfg c a)
+  | .patchable => unpatchAtG cfg c (unpatchSite cfg c a)
   | .pg => (match loc with
             | some l => unpatchAtG cfg c l
             | none => (c, .skipped))
@@ -333,10 +348,12 @@ structure Module where
   setupFails : Bool := false -- fault oracle: the mprotect of setup fails
   mapLen : Nat := 0          -- map->end - map->start
   /-- process-wide constants, carried per module to keep the loop signatures:
-      `unpatchFixed` = which unpatch_func is modelled (see `Cfg.fixed`),
+      `unpatchFixed` / `unpatchEndbr` = which unpatch_func / unpatch_fentry_func is modelled
+      (see `Cfg.fixed`, `Cfg.skipEndbr`),
       `mcountAddr` = address of libmcount's `mcount` (that of `__fentry__` is the
       `fentryAddr` parameter of the update functions) -/
   unpatchFixed : Bool := true
+  unpatchEndbr : Bool := true
   mcountAddr : Nat := 0
 
 /-- mcount_setup_trampoline for DYNAMIC_FENTRY_NOP / DYNAMIC_PATCHABLE (other
@@ -377,7 +394,8 @@ def updateModule (fentryAddr minSize : Nat) (verdict : Module → String → Opt
   let m1 := r.1
   if !r.2.2 then (m1, r.2.1, st) else
   let cfg : Cfg := { ty := m1.ty, minSize := minSize, start := m1.start, tramp := m1.trampoline,
-                     locs := m1.locs, fixed := m1.unpatchFixed, mapLen := m1.mapLen,
+                     locs := m1.locs, fixed := m1.unpatchFixed, skipEndbr := m1.unpatchEndbr,
+                     mapLen := m1.mapLen,
                      textLo := m1.textAddr - m1.start,
                      textHi := m1.textAddr - m1.start + m1.textSize,
                      symtab := m1.syms, entryFuncs := [fentryAddr, m1.mcountAddr] }
